@@ -357,6 +357,8 @@ func registerExterns(w *World) {
 		e := ex.fresh("ctxerr", "Int")
 		st.assume("(>= " + e + " 0)")
 		st.assume(implies(sel(st.region("G!cancelled", arr("Int", "Bool")), ctx), "(> "+e+" 0)"))
+		// context errors are values of the context package: their dynamic type is none of the repository's types
+		st.assume(implies("(> "+e+" 0)", eq(sel(st.region("G!dyn", arr("Int", "Int")), e), "(- 1)")))
 		st.assume(eq(e, sel(st.region("G!ctxerr", arr("Int", "Int")), ctx)))
 		c.k(st, term(e, types.Universe.Lookup("error").Type()))
 	})
@@ -404,7 +406,9 @@ func registerExterns(w *World) {
 		c.k(st, term(m, c.method.Type().(*types.Signature).Results().At(0).Type()))
 	})
 	w.ext("os.OpenFile", "os.OpenFile: (file, err) with exactly one of them nil; blocks on a FIFO until a writer opens it", func(ex *Exec, st *State, c *callCtx) {
-		ex.blocking = append(ex.blocking, blockingOp{Site: c.site, Kind: "external", Cancellable: false, Note: "os.OpenFile on a FIFO"})
+		if !st.dry {
+			ex.blocking = append(ex.blocking, blockingOp{Site: c.site, Kind: "external", Cancellable: false, Note: "os.OpenFile on a FIFO"})
+		}
 		f := ex.fresh("file", "Int")
 		e := ex.fresh("openerr", "Int")
 		st.assume("(>= " + f + " 0)")
@@ -435,6 +439,74 @@ func registerExterns(w *World) {
 	})
 	w.ext("(*bufio.Reader).ReadString", bufioDoc, externReadString)
 	w.ext("path/filepath.Join", "filepath.Join: opaque string", externPure)
+	errT := types.Universe.Lookup("error").Type()
+	oneOf := func(ex *Exec, st *State, c *callCtx, prefix string) (string, string) {
+		// (value, err): exactly one is nil; whichever is non-nil is a freshly allocated object
+		r := st.allocRef(prefix)
+		er := st.allocRef(prefix + "err")
+		ok := ex.fresh(prefix+"ok", "Bool")
+		v := ex.fresh(prefix+"v", "Int")
+		e := ex.fresh(prefix+"e", "Int")
+		st.assume(eq(v, ite(ok, r, "0")))
+		st.assume(eq(e, ite(ok, "0", er)))
+		return v, e
+	}
+	// ---- go-libaudit (dependency: assumed contracts)
+	w.ext("github.com/elastic/go-libaudit/v2.NewReassembler", "NewReassembler: (reassembler, err) with exactly one of them nil; the stream callback is retained", func(ex *Exec, st *State, c *callCtx) {
+		r, e := oneOf(ex, st, c, "reass")
+		g := st.region("G!reassstream", arr("Int", "Int"))
+		st.setRegion("G!reassstream", arr("Int", "Int"), store(g, r, c.args[2].T))
+		rt := c.fn.Signature.Results()
+		c.k(st, Val{K: KTuple, Fs: []Val{term(r, rt.At(0).Type()), term(e, errT)}})
+	})
+	w.ext("(*github.com/elastic/go-libaudit/v2.Reassembler).Close", "Reassembler.Close: may fail; flushes pending events to the stream callback (not modelled)", func(ex *Exec, st *State, c *callCtx) {
+		e := ex.fresh("closeerr", "Int")
+		st.assume("(>= " + e + " 0)")
+		c.k(st, term(e, errT))
+	})
+	w.ext("(*github.com/elastic/go-libaudit/v2.Reassembler).Maintain", "Reassembler.Maintain: non-nil error iff closed (unconstrained here)", func(ex *Exec, st *State, c *callCtx) {
+		e := ex.fresh("mainterr", "Int")
+		st.assume("(>= " + e + " 0)")
+		c.k(st, term(e, errT))
+	})
+	w.ext("(*github.com/elastic/go-libaudit/v2.Reassembler).PushMessage", "Reassembler.PushMessage(msg): ghost push trace: pushmsg(pushlen) = msg, pushsrc(pushlen) = index of the line received last, pushedfor(that index) = pushlen+1", func(ex *Exec, st *State, c *callCtx) {
+		ex.nilCheckTerm(st, c.args[0].T, c.site)
+		ex.assertAt(st, "PushMessage", map[string]Val{"msg": c.args[1]})
+		ii := arr("Int", "Int")
+		n := st.region("G!push#len", "Int")
+		st.setRegion("G!push!msg", ii, store(st.region("G!push!msg", ii), n, c.args[1].T))
+		j := st.region("G!lastrecv", "Int")
+		st.setRegion("G!push!src", ii, store(st.region("G!push!src", ii), n, j))
+		st.setRegion("G!pushedat", ii, store(st.region("G!pushedat", ii), j, "(+ "+n+" 1)"))
+		st.setRegion("G!push#len", "Int", "(+ "+n+" 1)")
+		c.k(st, Val{K: KUnit})
+	})
+	w.ext("github.com/elastic/go-libaudit/v2/auparse.ParseLogLine", "ParseLogLine(line): (msg, err) with exactly one of them nil; ghost msgline(msg) = line", func(ex *Exec, st *State, c *callCtx) {
+		m, e := oneOf(ex, st, c, "auditmsg")
+		g := st.region("G!msgline", arr("Int", "String"))
+		st.setRegion("G!msgline", arr("Int", "String"), store(g, m, c.args[0].T))
+		st.setRegion("G!g_parse_err", "Int", e)
+		rt := c.fn.Signature.Results()
+		c.k(st, Val{K: KTuple, Fs: []Val{term(m, rt.At(0).Type()), term(e, errT)}})
+	})
+	w.ext("github.com/elastic/go-libaudit/v2/aucoalesce.CoalesceMessages", "CoalesceMessages(msgs): (event, err) with exactly one of them nil; ghost g_co_event / g_co_err", func(ex *Exec, st *State, c *callCtx) {
+		ev, e := oneOf(ex, st, c, "coalesced")
+		st.setRegion("G!g_co_event", "Int", ev)
+		st.setRegion("G!g_co_err", "Int", e)
+		rt := c.fn.Signature.Results()
+		c.k(st, Val{K: KTuple, Fs: []Val{term(ev, rt.At(0).Type()), term(e, errT)}})
+	})
+	w.ext("github.com/elastic/go-libaudit/v2/aucoalesce.ResolveIDs", "ResolveIDs(event): fills in names; no effect on the fields the daemon reads (assumed)", func(ex *Exec, st *State, c *callCtx) { c.k(st, Val{K: KUnit}) })
+	w.iext("github.com/metal-toolbox/audito-maldito/processors/auditd/sessiontracker.Auditor.AuditdEvent", "Auditor.AuditdEvent(event) through the interface: any implementation, any result; ghost g_au_calls += 1, g_au_lastev = event, g_au_lastret = result", func(ex *Exec, st *State, c *callCtx) {
+		ex.nilCheckTerm(st, c.args[0].T, c.site)
+		e := ex.fresh("auerr", "Int")
+		st.assume("(>= " + e + " 0)")
+		st.assume(implies(not(eq(e, "0")), sel(st.region("A", arr("Int", "Bool")), e)))
+		st.setRegion("G!g_au_calls", "Int", "(+ "+st.region("G!g_au_calls", "Int")+" 1)")
+		st.setRegion("G!g_au_lastev", "Int", c.args[1].T)
+		st.setRegion("G!g_au_lastret", "Int", e)
+		c.k(st, term(e, errT))
+	})
 	w.iext("net/http.ResponseWriter.WriteHeader", "ResponseWriter.WriteHeader(code): ghost g_http_status = code, g_http_calls += 1", func(ex *Exec, st *State, c *callCtx) {
 		ex.nilCheckTerm(st, c.args[0].T, c.site)
 		st.setRegion("G!g_http_status", "Int", c.args[1].T)
@@ -501,7 +573,9 @@ func externReadString(ex *Exec, st *State, c *callCtx) {
 	st.setRegion("G!rdpos", arr("Int", "Int"), store(pos, r, "(+ "+sel(pos, r)+" (str.len "+line+"))"))
 	ge := st.region("G!rdlasterr", arr("Int", "Int"))
 	st.setRegion("G!rdlasterr", arr("Int", "Int"), store(ge, r, e))
-	ex.blocking = append(ex.blocking, blockingOp{Site: c.site, Kind: "external", Cancellable: false, Note: "bufio.Reader.ReadString (blocking read)"})
+	if !st.dry {
+		ex.blocking = append(ex.blocking, blockingOp{Site: c.site, Kind: "external", Cancellable: false, Note: "bufio.Reader.ReadString (blocking read)"})
+	}
 	rt := c.fn.Signature.Results()
 	c.k(st, Val{K: KTuple, Fs: []Val{term(line, rt.At(0).Type()), term(e, rt.At(1).Type())}})
 }
